@@ -53,6 +53,13 @@ def requests(tier):
             for k in ((5, 5), (1, 7), (6, 2), (2, 6)):
                 for acc in ACCS:
                     reqs.append(dict(kind=kind, depth=17, blk=16, slices=slice_lists(17)[0], acc=acc, dt="int8", per_channel=False, wzp=0, k=k, ic=8, dil=dil, wseed=0, bseed=0))
+    # int16 activations with an int32 bias (legal in TFLite): 32-bit accumulators, so the full-precision multiplier applies
+    for kind in ("conv", "depthwise", "fc"):
+        for depth in (8, 17):
+            for acc in ACCS:
+                for per_channel in (False, True):
+                    reqs.append(dict(kind=kind, depth=depth, blk=16, slices=slice_lists(depth)[0], acc=acc, dt="int16", bias32=True, per_channel=per_channel, wzp=0,
+                                     k=(1, 1) if kind == "fc" else (3, 3), ic=8 if kind != "fc" else 24, dil=(1, 1), wseed=0, bseed=0))
     # TRANSPOSE_CONV (Conv2DBackpropInputSwitchedBias): the kernel is mirrored in both spatial axes before encoding - for every depth slice,
     # with kernels that are not their own mirror image
     for depth in (17, 40):
@@ -118,9 +125,9 @@ def make_op(req, shared=None):
         if shared is not None:
             shared[key] = wt
     brng = np.random.default_rng(2000 + req["bseed"])
-    bdt = DataType.int64 if req["dt"] == "int16" else DataType.int32
+    bdt = DataType.int64 if (req["dt"] == "int16" and not req.get("bias32")) else DataType.int32
     bvals = brng.integers(-20000, 20001, size=[depth])
-    bkey = ("b", depth, req["bseed"], req["dt"])
+    bkey = ("b", depth, req["bseed"], req["dt"], bool(req.get("bias32")))
     if shared is not None and bkey in shared:
         # several operators naming one bias constant: the reader gives each its own clone, which keeps the identity of the VALUES
         bt = shared[bkey].clone("_again", set_unique=True)
@@ -179,7 +186,7 @@ def expected_scale(req, ch):
         real = float((np.double(s_in) * np.double(s_w)) / np.double(s_out))
     m, e = Q.quantize_multiplier(real)
     shift = 31 - e
-    if req["dt"] == "int16":
+    if req["dt"] == "int16" and not req.get("bias32"):  # the 16-bit form belongs to the 40-bit accumulators of an int64 bias
         red = ((m + (1 << 15)) >> 16) if m < (32767 << 16) else 32767
         return red, shift - 16
     return m, shift
@@ -400,7 +407,7 @@ def run(ctx):
     for n, bad in pmap(_req_shard, [reqs[i:i + 24] for i in range(0, len(reqs), 24)]):
         ctx.count("requests", n)
         for req, probs in bad:
-            key = "encode|%s|%s|cores%d|%s" % (req["kind"] + ("-transposed" if req.get("tconv") else ""), req["dt"], ACCS[req["acc"]], probs[0].split("(")[0].split(":")[0][:50])
+            key = "encode|%s|%s|cores%d|%s" % (req["kind"] + ("-transposed" if req.get("tconv") else ""), req["dt"] + ("+bias32" if req.get("bias32") else ""), ACCS[req["acc"]], probs[0].split("(")[0].split(":")[0][:50])
             ctx.violation(key, "%s  [request %s]" % ("; ".join(probs[:3]), req), dict(req=req))
     # histories
     A = history_alphabet()
